@@ -479,3 +479,101 @@ def _through_closure(proj, m, scope, val, thr):
                 if isinstance(e, ast.BinOp) and isinstance(e.op, ast.Sub):
                     return e.left, e.right, f' (through `{getattr(fn, "name", "lambda")}` returning `{ast.unparse(e)}`)'
     return val, thr, ''
+
+
+# ================================================================= T2 tolerance direction
+RULE_T2 = ('T2: under the default parameter values every tolerance moves its threshold in the direction that keeps the '
+           'decision sound: PSD tests of the necessary criteria are shifted by a positive amount (lenient towards "PSD"), '
+           'accept-thresholds of the necessary criteria lie on the accepting side of the exact boundary, certificate '
+           'thresholds (rank / rank-one detectors) on the conservative side.  Direction per decision function is tabulated.')
+
+# required sign of (threshold evaluated at the defaults) - (exact boundary literal inside it, 0 if none)
+T2_DIRECTION = {
+    'numqi.entangle.ppt.is_generalized_ppt': +1,             # nuclear norm <= 1+threshold accepted
+    'numqi.entangle.ppt.get_generalized_ppt_boundary': +1,
+    'numqi.entangle._misc.check_swap_witness': -1,           # Tr(rho SWAP) > eps accepted, eps < 0
+    'numqi.matrix_space._numerical_range.detect_real_matrix_subspace_rank_one': -1,   # certificate only below 1-zero_eps
+    'numqi.matrix_space._hierarchy.has_rank_hierarchical_method': +1,                 # certificate only above zero_eps
+    'numqi.matrix_space._hierarchy.is_ABC_completely_entangled_subspace': +1,
+}
+
+
+def _default_env(fi):
+    env = {}
+    for p, d in fi.defaults.items():
+        if isinstance(d, ast.Constant) and isinstance(d.value, (int, float)) and not isinstance(d.value, bool):
+            env[p] = d.value
+        elif isinstance(d, ast.UnaryOp) and isinstance(d.op, ast.USub) and isinstance(d.operand, ast.Constant):
+            env[p] = -d.operand.value
+    return env
+
+
+def _num_eval(e, env):
+    from ..tables import const_eval, Sym
+    v = const_eval(e, env)
+    if isinstance(v, (int, float)) and not isinstance(v, bool):
+        return float(v)
+    return None
+
+
+def _boundary_literal(e):
+    lits = [n.value for n in ast.walk(e) if isinstance(n, ast.Constant) and isinstance(n.value, (int, float))
+            and not isinstance(n.value, bool) and float(n.value) == int(n.value)]
+    return float(lits[0]) if len(lits) == 1 else (0.0 if not lits else None)
+
+
+def t2(proj, rep, decision_functions):
+    rep.rule('T2', RULE_T2)
+    from ..project import bind_call
+    n = 0
+    for qual in decision_functions:
+        fi = proj.func(qual)
+        m = fi.module
+        env = _default_env(fi)
+        for scope in _functions_in(fi.node):
+            for node in own_nodes(scope):
+                if isinstance(node, ast.Call):
+                    r = resolve_callee(proj, m, node)
+                    if r.kind == 'func' and r.qual == 'numqi.utils.is_positive_semi_definite' and qual != r.qual:
+                        b = bind_call(node, r.node)
+                        sh = b.args.get('shift')
+                        if sh is None:
+                            continue
+                        v = _num_eval(sh, env)
+                        n += 1
+                        if v is None:
+                            rep.ok('T2', qual, f'shift={ast.unparse(sh)} (sign not derivable from defaults)', m, node)
+                        elif v > 0:
+                            rep.ok('T2', qual, f'shift={ast.unparse(sh)} = {v:g} > 0 at the defaults', m, node)
+                        else:
+                            rep.violation('T2', qual, f'shift={ast.unparse(sh)} evaluates to {v:g} at the default parameters: the PSD test is '
+                                          f'made stricter, so states on the boundary of the criterion (e.g. separable pure-product mixtures) '
+                                          f'are rejected', m, node)
+                elif isinstance(node, ast.Compare) and qual in T2_DIRECTION:
+                    operands = [node.left] + list(node.comparators)
+                    for a, op, b2 in zip(operands, node.ops, operands[1:]):
+                        if not isinstance(op, (ast.Lt, ast.LtE, ast.Gt, ast.GtE)):
+                            continue
+                        for val, thr in ((a, b2), (b2, a)):
+                            val2, thr2, how = _through_closure(proj, m, scope, val, thr)
+                            if _int_literal(thr2) or is_float_numeric(proj, m, scope, val2) is None:
+                                continue
+                            if is_float_numeric(proj, m, scope, thr2) is not None:
+                                continue
+                            tv = _num_eval(thr2, env)
+                            bl = _boundary_literal(thr2)
+                            if tv is None or bl is None:
+                                continue
+                            if isinstance(thr2, ast.Constant):
+                                continue        # fixed literal tolerances of input validation (1e-10 ...): no boundary semantics
+                            n += 1
+                            s = (tv > bl) - (tv < bl)
+                            want = T2_DIRECTION[qual]
+                            if s == want:
+                                rep.ok('T2', qual, f'`{ast.unparse(node)}`: threshold {ast.unparse(thr2)} = {tv:g} lies on the sound side of {bl:g}', m, node)
+                            else:
+                                rep.violation('T2', qual, f'`{ast.unparse(node)}`: at the defaults the threshold {ast.unparse(thr2)} = {tv:.3g} lies on the '
+                                              f'{"upper" if s > 0 else "lower"} side of the exact boundary {bl:g}; soundness needs the '
+                                              f'{"upper" if want > 0 else "lower"} side', m, node)
+    rep.count('T2.sites', n)
+    return n
